@@ -82,8 +82,7 @@ CLAIMS = {
          "HCR.TGE / HCR.DC corners as UNPREDICTABLE, alignment faults of Device memory reported; the Long-descriptor one of these in the thorough tier only). "
          "(3) the Hyp-mode stage-1 walk (HTCR.T0SZ, HTTBR, HSCTLR.EE, HMAIR, Non-secure lookup, the Hyp-regime UNPREDICTABLE descriptor settings) "
          "functionally like (2). The second stage (VTCR/VTTBR walk, stage 1 walks through stage 2, check_permission_s2, combine_s1s2_desc, "
-         "s2_attr_decode) and Hyp mode with HSCTLR.M == 0 have NO functional specification: safety units (Hyp mode; stage 2 with the stage 1 MMU off; second_stage_translate() on its own, i.e. the stage 2 translation of a stage 1 table address with the HCR.PTW rule; "
-         "stage 2 with it on in the thorough tier) prove for them no host error, termination of every walk, a 40-bit physical address, "
+         "s2_attr_decode) and Hyp mode with HSCTLR.M == 0 have NO functional specification: safety units (Hyp mode; stage 2 with the stage 1 MMU off; second_stage_translate() on its own, i.e. the stage 2 translation of a stage 1 table address with the HCR.PTW rule; the whole of translate_address_v with stage 1 on AND stage 2 active exceeds the engine's merge budget and is not explored as one unit) prove for them no host error, termination of every walk, a 40-bit physical address, "
          "'a success changes no state, a fault only the fault-reporting registers', no memory write and ownership of the result - the "
          "property text itself speaks of stage 1 only. Also outside: SCTLR.HA; Long-descriptor fault *reporting* stops at a "
          "mock hook (NotImplementedError), so there only 'a fault is raised exactly when specified' is proved; SCTLR.TRE == 0 likewise.",
